@@ -106,7 +106,7 @@ Lemma var_node_reads_value fuel n s x xn v :
 Proof.
   intros Hn Hk Hv. unfold recompute_one.
   erewrite bindM_eq by reflexivity. erewrite bindM_eq by reflexivity.
-  erewrite bindM_eq by reflexivity. erewrite bindM_eq by reflexivity.
+  erewrite bindM_eq by reflexivity. unfold recompute_body.
   erewrite bindM_eq.
   2:{ apply get_node_eq. simpl. rewrite list_lookup_alter, Hn. reflexivity. }
   assert (node_kind (xn <| n_recomputed_at := stab_num s |>) = Some (KVar x)) as Hk' by exact Hk.
